@@ -12,10 +12,10 @@ What is proved: (1) the catch-up pass never takes anything back — on both inst
 edge, every point identity only moves to newer points (`c02_no_write_lost`), for any tree, any hashes,
 any interleaving of the pass's own writes; (2) the exchange of points between the two copies of one
 node (or edge) leaves BOTH sides with exactly the newest point of every identity
-(`c02_points_converge`); (2') for two stores with the same nodes below `n`, one pass makes the node points of the
+(`c02_points_converge`); (2') for two stores with the same nodes below `n`, one pass makes the points of the nodes and edges of the
 whole subtree agree PROVIDED the hash comparison is faithful there (`c02_pass_converges_where_hash_is_faithful`).
 What is NOT proved: that the hash comparison is faithful (it is not: open findings — changes that cancel in the XOR
-hash), nor the edge-point and missing-node analogues of (2') — partial.
+hash), nor the missing-node analogue of (2') — partial.
 (3) The loop around the pass (`SyncClient.Run`, model `Siot.SyncLoop`): for every sequence of link events, timer
 firings, local writes and configuration changes, a catch-up pass runs at every (re)connection and then periodically for
 as long as the link is reported up, local writes are forwarded exactly while it is, and a client that is not disabled
@@ -161,41 +161,52 @@ theorem c02_agreed_node_is_quiet (L U : List Point) (hL : IdUnique L) (hU : IdUn
 
 /-- **C02 (the pass is local).** Let both stores hold the node `n` under the parent `p` with the same descendants
 (`Ctx`: the edges of either store form a forest — no mirrors, no cycle —, every node below `n` has the same child edges on
-both sides, none of them is the local root or carries one of the reserved names). Then a catch-up pass for `n`, however
+both sides, none of them is a root node or carries one of the reserved names). Then a catch-up pass for `n`, however
 deep it goes, inserts no edge on either side, keeps both stores well formed and only ever moves points forward
-(`PFwd`), and changes the points of no node outside the subtree of `n`. -/
-theorem c02_pass_is_local (wall : Int → Int) (KA KB : List Sh) (rootA : Bytes) (fuel : Nat) (s : Pair) (p n ta tb : Bytes)
-    (hg : Good KA KB rootA s) (hc : Ctx KA KB rootA n) (hka : (p, n, ta) ∈ KA) (hkb : (p, n, tb) ∈ KB)
+(`PFwd`), and changes nothing either store holds for a node outside the subtree of `n` — neither its points nor the
+points of the edge into it. -/
+theorem c02_pass_is_local (wall : Int → Int) (KA KB : List Sh) (rootA rootB : Bytes) (fuel : Nat) (s : Pair) (p n ta tb : Bytes)
+    (hg : Good KA KB rootA rootB s) (hc : Ctx KA KB rootA rootB n) (hka : (p, n, ta) ∈ KA) (hkb : (p, n, tb) ∈ KB)
     (hp1 : p ≠ rootS) (hp2 : p ≠ allS) (hp3 : p ≠ []) :
-    Good KA KB rootA (syncNode wall fuel s p n) ∧ PFwd s (syncNode wall fuel s p n) ∧
-    ∀ m, ¬ Below KA n m → ptsOf (syncNode wall fuel s p n).a m = ptsOf s.a m ∧ ptsOf (syncNode wall fuel s p n).b m = ptsOf s.b m :=
-  syncNode_loc wall KA KB rootA fuel s p n ta tb hg hc hka hkb hp1 hp2 hp3
+    Good KA KB rootA rootB (syncNode wall fuel s p n) ∧ PFwd s (syncNode wall fuel s p n) ∧
+    ∀ m, ¬ Below KA n m → Same s.a (syncNode wall fuel s p n).a m ∧ Same s.b (syncNode wall fuel s p n).b m :=
+  syncNode_loc wall KA KB rootA rootB fuel s p n ta tb hg hc hka hkb hp1 hp2 hp3
 
 /-- **C02 (one pass makes whole subtrees agree — exactly as far as the hash comparison is faithful).** In the setting
-of `c02_pass_is_local`, with stored rows and distinct time stamps per identity below `n` (`RowsOk`), assume that on the
-states that can follow `s` (every point only moved forward) two copies of an edge below `n` never carry the same hash
-unless their subtrees hold the same points (`Faithful`: the purpose of the Merkle hash; it FAILS when changes cancel
-in the XOR — the two open findings — and for CRC collisions). Then after ONE pass for `n` the two stores hold the same
-points for `n` and for every node below it, down to the depth the recursion budget reaches (the budget in use is
-2^|edges|): the newest point of every identity written on either side, nothing lost (`c02_no_write_lost`). So the
-only way a difference survives a pass over equal trees is an equal-hash comparison that hides it. -/
-theorem c02_pass_converges_where_hash_is_faithful (wall : Int → Int) (KA KB : List Sh) (rootA : Bytes) (fuel : Nat) (s : Pair)
-    (p n ta tb : Bytes) (hg : Good KA KB rootA s) (hc : Ctx KA KB rootA n) (hka : (p, n, ta) ∈ KA) (hkb : (p, n, tb) ∈ KB)
+of `c02_pass_is_local`, with stored rows and distinct time stamps per identity below `n` (`RowsOkAt`, for node points and
+edge points), assume that on the states that can follow `s` (every point only moved forward) two copies of an edge
+below `n` never carry the same hash unless their subtrees hold the same points (`Faithful`: the purpose of the Merkle
+hash; it FAILS when changes cancel in the XOR — the two open findings — and for CRC collisions). Then after ONE pass
+for `n` the two stores hold the same points for `n`, for every node below it and for every edge between them
+(`AgreeAt`), down to the depth the recursion budget reaches (the budget in use is 2^|edges|): the newest point of every
+identity written on either side, nothing lost (`c02_no_write_lost`). So the only way a difference survives a pass over
+equal trees is an equal-hash comparison that hides it. -/
+theorem c02_pass_converges_where_hash_is_faithful (wall : Int → Int) (KA KB : List Sh) (rootA rootB : Bytes) (fuel : Nat) (s : Pair)
+    (p n ta tb : Bytes) (hg : Good KA KB rootA rootB s) (hc : Ctx KA KB rootA rootB n) (hka : (p, n, ta) ∈ KA) (hkb : (p, n, tb) ∈ KB)
     (hp1 : p ≠ rootS) (hp2 : p ≠ allS) (hp3 : p ≠ [])
-    (hrows : ∀ m, Below KA n m → RowsOk s m) (hfaith : ∀ t, PFwd s t → Faithful KA n t) :
-    ∀ d m, d < fuel → BelowD KA n d m → AgreeN (syncNode wall fuel s p n) m := by
-  apply syncNode_conv wall KA KB rootA ?_ fuel s p n ta tb hg hc hka hkb hp1 hp2 hp3 hrows hfaith
-  intro s ea eb ia ib hdn hr q
-  have hu : (neOf s.b eb).pts = ptsOf s.b (neOf s.a ea).id := by simp only [neOf]; rw [hdn]
-  obtain ⟨h1, h2⟩ := c02_exchange_converges_on_stores s ia ib (neOf s.a ea) (neOf s.b eb) hdn.symm rfl hu hr.sl hr.su hr.adm q
-  exact h1.trans h2.symm
+    (hrows : ∀ m, Below KA n m → RowsOkAt KA s m) (hfaith : ∀ t, PFwd s t → Faithful KA n t) :
+    ∀ d m, d < fuel → BelowD KA n d m → AgreeAt KA (syncNode wall fuel s p n) m := by
+  apply syncNode_conv wall KA KB rootA rootB ?_ fuel s p n ta tb hg hc hka hkb hp1 hp2 hp3 hrows hfaith
+  intro s ea eb ia ib hea heb hup hdn hpne hnp hra hrb hr her
+  constructor
+  · intro q
+    have hu : (neOf s.b eb).pts = ptsOf s.b (neOf s.a ea).id := by simp only [neOf]; rw [hdn]
+    obtain ⟨h1, h2⟩ := c02_exchange_converges_on_stores s ia ib (neOf s.a ea) (neOf s.b eb) hdn.symm rfl hu hr.sl hr.su hr.adm q
+    exact h1.trans h2.symm
+  · intro q
+    obtain ⟨r1, r2⟩ := syncExchange_edge_rows s ea eb ea.up ea.down hea heb rfl rfl hup.symm hdn.symm hpne hnp hra hrb
+      (fun x hx => ⟨(her.sl x hx).2, her.tl x hx⟩) (fun x hx => ⟨(her.su x hx).2, her.tu x hx⟩) (ib.epu (ea.up, ea.down))
+    rw [r1, r2]
+    obtain ⟨h1, h2⟩ := c02_points_converge _ _ (ia.epu (ea.up, ea.down)) (ib.epu (ea.up, ea.down)) (fun x hx => (her.sl x hx).1)
+      (fun x hx => (her.su x hx).1) her.adm q
+    exact h1.trans h2.symm
 
 /-- non-vacuity of the tree hypotheses: a node `a` under `R` with two children, one of which has a child, the same on
     both sides (the upstream has one more node elsewhere) -/
 example :
     let KA : List Sh := [(rootS, [82], [100]), ([82], [97], [100]), ([97], [98], [100]), ([97], [99], [100]), ([98], [101], [100])]
     let KB : List Sh := KA ++ [([82], [120], [100])]
-    Ctx KA KB [82] [97] := by
+    Ctx KA KB [82] [120, 120] [97] := by
   intro KA KB
   have hr : ∀ (K : List Sh), (∀ k ∈ K, k ∈ KB) → ∃ r : Bytes → Nat, ∀ k ∈ K, r k.1 < r k.2.1 := by
     intro K hK
